@@ -1264,6 +1264,9 @@ class Interp:
                 # 1 << e: the atom 2^e; python raises ValueError for a negative shift count
                 self.path.oblige('shift-nonneg', 'arith', b.t >= 0)
                 return IntV(bits.atomv(b.t), None)
+            if isinstance(op, ast.LShift):
+                self.path.oblige('shift-nonneg', 'arith', b.t >= 0)
+                return IntV(bits.shl(a.t, b.t), a.tag)
             if isinstance(op, ast.RShift):
                 self.path.oblige('shift-nonneg', 'arith', b.t >= 0)
                 return IntV(bits.shr(a.t, b.t), a.tag)
